@@ -175,10 +175,10 @@ func ToId(i IdProperty) (*url.URL, error) {
 // Returns an error if the id is not set and either the 'href' property is not
 // valid on this type, or it is also not set.
 func GetId(t vocab.Type) (*url.URL, error) {
-	if id := t.GetJSONLDId(); id != nil {
+	if id := t.GetJSONLDId(); id != nil && id.Get() != nil {
 		return id.Get(), nil
 	} else if h, ok := t.(hrefer); ok {
-		if href := h.GetActivityStreamsHref(); href != nil {
+		if href := h.GetActivityStreamsHref(); href != nil && href.Get() != nil {
 			return href.Get(), nil
 		}
 	}
